@@ -24,21 +24,22 @@ C['C07']=dict(level='exploration',
   note='un-instrumented: built directly against /repo; small-scope hypothesis over the stated alphabet; duplicate member names and invalid UTF-8 excluded.',
   technique='bounded-exhaustive input enumeration against a reference model (no sampling)',
   design_ref='4/C07', engine='direct')
+G="Explicit-state breadth-first search to fixpoint whose transition function is the real code: a state is the shortest event history reaching it, replayed on a fresh ShipConnection under the controlled scheduler; states are deduplicated by a reflection snapshot of every ShipConnection field plus armed virtual timers, live goroutines and the monitor's ghost variables"
 GNOTE='handler-atomic transitions (one stimulus run to quiescence); message alphabet with one representative per handler branch, each message at most twice per history; timers fire in deadline order; fake transport and info provider; concurrency between stimuli is covered by C03/C14.'
 C['C04']=dict(level='model_checking',
-  text='%s. Events: every message of the alphabet (well-formed, ill-formed, out of phase), timer expiry, transport-down flag and error report, user approve/cancel/close, application write, and a write failure injected at every single transport write of every transition. Monitors on every transition: each reported state change is an edge of the SHIP 13.4 state graph written out as a table in the harness; after the first terminal outcome no progress state, no send other than the closing exchange, no setup, handshake timer not running, transport closed once no close delay is pending. 4 configurations quick (core alphabet), 5 thorough (full alphabet).' % 'Explicit-state breadth-first search to fixpoint whose transition function is the real code: a state is the shortest event history reaching it, replayed on a fresh shipconnection under the controlled scheduler; states are deduplicated by a reflection snapshot of every shipconnection field plus armed virtual timers, live goroutines and the monitor's ghost variables',
+  text='%s. Events: every message of the alphabet (well-formed, ill-formed, out of phase), timer expiry, transport-down flag and error report, user approve/cancel/close, application write, and a write failure injected at every single transport write of every transition. Monitors on every transition: each reported state change is an edge of the SHIP 13.4 state graph written out as a table in the harness; after the first terminal outcome no progress state, no send other than the closing exchange, no setup, handshake timer not running, transport closed once no close delay is pending. 4 configurations quick (core alphabet), 5 thorough (full alphabet).' % G,
   note=GNOTE, technique='explicit-state model checking of the implementation (BFS by replay over real handlers) with single-fault enumeration', design_ref='4/C04')
 C['C09']=dict(level='model_checking',
-  text='%s. Both roles x stored SHIP ID {none, "A"}; alphabet: the valid prefix plus access-methods request and replies with id A, B, empty, absent, number, null, in every order and state. Monitors: with a stored id the remote device is set up only if the last presented id equals it; an unknown id is reported exactly once, with the presented value, strictly before setup; never when the id was known.' % 'Explicit-state breadth-first search to fixpoint whose transition function is the real code: a state is the shortest event history reaching it, replayed on a fresh shipconnection under the controlled scheduler; states are deduplicated by a reflection snapshot of every shipconnection field plus armed virtual timers, live goroutines and the monitor's ghost variables',
+  text='%s. Both roles x stored SHIP ID {none, "A"}; alphabet: the valid prefix plus access-methods request and replies with id A, B, empty, absent, number, null, in every order and state. Monitors: with a stored id the remote device is set up only if the last presented id equals it; an unknown id is reported exactly once, with the presented value, strictly before setup; never when the id was known.' % G,
   note=GNOTE+' The hub half (stored id reaches every new connection) is covered by the two-hub harness.', technique='explicit-state model checking of the implementation (BFS by replay over real handlers)', design_ref='4/C09')
 C['C01']=dict(level='model_checking',
-  text='%s. Server role with trust in {none, paired, auto-accept} x waiting allowed or not, plus client role; the harness is the adversarial peer, the transport and the user (approve/cancel/close). Monitor: hello-ok only while trust is present, setup/complete/payload only after a legitimate hello-ok, payload only after setup, complete only after setup.' % 'Explicit-state breadth-first search to fixpoint whose transition function is the real code: a state is the shortest event history reaching it, replayed on a fresh shipconnection under the controlled scheduler; states are deduplicated by a reflection snapshot of every shipconnection field plus armed virtual timers, live goroutines and the monitor's ghost variables',
+  text='%s. Server role with trust in {none, paired, auto-accept} x waiting allowed or not, plus client role; the harness is the adversarial peer, the transport and the user (approve/cancel/close). Monitor: hello-ok only while trust is present, setup/complete/payload only after a legitimate hello-ok, payload only after setup, complete only after setup.' % G,
   note=GNOTE+' Ship level: the trust answers come from a fake info provider; the hub bookkeeping behind them is exercised by the two-hub harnesses.', technique='explicit-state model checking of the implementation (BFS by replay over real handlers)', design_ref='4/C01')
 C['C06']=dict(level='model_checking',
-  text='%s. SPINE data frames are offered in every reachable state before and after completion (at most two, both orders) together with the rest of the alphabet. Monitor: the payloads handed to the reader equal the arrived datagrams in arrival order, none before SetupRemoteDevice, none lost or duplicated while the connection is open.' % 'Explicit-state breadth-first search to fixpoint whose transition function is the real code: a state is the shortest event history reaching it, replayed on a fresh shipconnection under the controlled scheduler; states are deduplicated by a reflection snapshot of every shipconnection field plus armed virtual timers, live goroutines and the monitor's ghost variables',
+  text='%s. SPINE data frames are offered in every reachable state before and after completion (at most two, both orders) together with the rest of the alphabet. Monitor: the payloads handed to the reader equal the arrived datagrams in arrival order, none before SetupRemoteDevice, none lost or duplicated while the connection is open.' % G,
   note=GNOTE+' Covers the buffering/flush half at the ship level; ordering through the write queue and pumps of two connected endpoints is covered by the pair harness.', technique='explicit-state model checking of the implementation (BFS by replay over real handlers)', design_ref='4/C06')
 C['C08']=dict(level='model_checking',
-  text='%s. Every alphabet message is delivered in every reachable state (both roles, trusted and pending); in addition 4490 systematic malformed inputs (every single structured mutation of each valid SHIP message: node deleted / replaced by 14 values incl. "[ ]", header byte variants, truncations, stray zero bytes, whitespace at token boundaries; all byte strings of length <= 3 over a 14-symbol alphabet) are delivered in one representative of every distinct (handshake state, transport state). Oracle: no panic in any goroutine, the receive loop returns (only a bounded close delay may be pending), post-state legal.' % 'Explicit-state breadth-first search to fixpoint whose transition function is the real code: a state is the shortest event history reaching it, replayed on a fresh shipconnection under the controlled scheduler; states are deduplicated by a reflection snapshot of every shipconnection field plus armed virtual timers, live goroutines and the monitor's ghost variables',
+  text='%s. Every alphabet message is delivered in every reachable state (both roles, trusted and pending); in addition 4490 systematic malformed inputs (every single structured mutation of each valid SHIP message: node deleted / replaced by 14 values incl. "[ ]", header byte variants, truncations, stray zero bytes, whitespace at token boundaries; all byte strings of length <= 3 over a 14-symbol alphabet) are delivered in one representative of every distinct (handshake state, transport state). Oracle: no panic in any goroutine, the receive loop returns (only a bounded close delay may be pending), post-state legal.' % G,
   note=GNOTE+' Ship level only so far (websocket frame level and mDNS inputs are separate harnesses).', technique='explicit-state model checking of the implementation (BFS by replay) plus exhaustive enumeration of a finite mutation set in every distinct state', design_ref='4/C08')
 na={}
 checks=[]
